@@ -13,6 +13,8 @@ import (
 	"sync"
 	"sync/atomic"
 	"time"
+
+	"github.com/pion/ice/v4/internal/verifhook"
 )
 
 type muxedPacketConn interface {
@@ -154,10 +156,14 @@ func (s *sharedPacketConn) abortWrite() error {
 func (s *sharedPacketConn) Close() error {
 	var err error
 	fired := false
+	verifhook.Yield("sc.close")
 	s.closeOnce.Do(func() {
 		fired = true
+		verifhook.Yield("sc.cancel")
 		s.cancel()
+		verifhook.Yield("sc.unref")
 		if s.refs.Add(-1) <= 0 {
+			verifhook.Yield("sc.uclose")
 			err = s.underlying.Close()
 		}
 	})
